@@ -7,6 +7,8 @@ import Mathlib.Tactic.Ring
 import Mathlib.Tactic.LinearCombination
 import Mathlib.Tactic.NormNum
 import Mathlib.Algebra.Order.Ring.Rat
+import TangeloProofs.Lemmas.SimRefines
+import Mathlib.Algebra.BigOperators.Fin
 /-!
 # C02 — expectation values equal ⟨ψ|H|ψ⟩ on every evaluation path
 -/
@@ -172,5 +174,160 @@ theorem table_is_documented : Tables.measBasis = [("X", "RY", -2), ("Y", "RX", 2
 /-! ## non-vacuity -/
 example : (([(false, 3/4), (true, 1/4)] : List (Bool × ℚ)).map (·.2)).sum = 1 := by norm_num
 example : expectSamples (R := ℚ) [(false, 3/4), (true, 1/4)] = 1/2 := by norm_num [expectSamples]
+
+/-! ## what the driver computes is the specified expectation value -/
+
+theorem foldl_pairs_sum (l : List (Cyc × Cyc)) (init : Cyc) :
+    l.foldl (fun acc (p : Cyc × Cyc) => acc + Cyc.conj p.1 * p.2) init = init + (l.map (fun p => Cyc.conj p.1 * p.2)).sum := by
+  induction l generalizing init with
+  | nil => simp
+  | cons x xs ih => simp only [List.foldl_cons, List.map_cons, List.sum_cons, ih]; ring
+
+theorem zip_ofFn {α β : Type} (m : Nat) (f : Fin m → α) (g : Fin m → β) :
+    (List.ofFn f).zip (List.ofFn g) = List.ofFn (fun i => (f i, g i)) := by
+  apply List.ext_getElem
+  · simp
+  · intro i h1 h2
+    simp
+
+/-- the array overlap of two tabulated states is the specified inner product -/
+theorem inner_tabulate (n : Nat) (φ χ : State Cyc) :
+    SV.inner (tabulate n φ) (tabulate n χ) = inner n φ χ := by
+  simp only [SV.inner, tabulate, inner]
+  rw [← Array.foldl_toList, Array.toList_zip, Array.toList_ofFn, Array.toList_ofFn, zip_ofFn]
+  have := foldl_pairs_sum (List.ofFn (fun i : Fin (2 ^ n) => (φ (bitsOf i.val), χ (bitsOf i.val)))) 0
+  rw [this, zero_add, List.map_ofFn, List.sum_ofFn]
+  rw [← Fin.sum_univ_eq_sum_range (fun i => star (φ (bitsOf i)) * χ (bitsOf i)) (2 ^ n)]
+  rfl
+
+
+theorem pauliOp_sem (q : Nat) (p : Pauli) (ψ : State Cyc) :
+    (pauliOp q p).sem cycConsts ψ = app1 (pauliMat cycConsts p) q ψ := by
+  cases p <;> simp [pauliOp, Op.sem, pauliMat, ctl_nil]
+
+theorem semOps_word (w : PWord) (ψ : State Cyc) :
+    semOps cycConsts (w.map (fun (qp : Nat × Pauli) => pauliOp qp.1 qp.2)) ψ = wordOps (pauliMat cycConsts) w ψ := by
+  induction w generalizing ψ with
+  | nil => rfl
+  | cons qp rest ih =>
+    obtain ⟨q, p⟩ := qp
+    have e : semOps cycConsts (((q, p) :: rest).map (fun (qp : Nat × Pauli) => pauliOp qp.1 qp.2)) ψ =
+        semOps cycConsts (rest.map (fun (qp : Nat × Pauli) => pauliOp qp.1 qp.2)) ((pauliOp q p).sem cycConsts ψ) := rfl
+    rw [e, pauliOp_sem, ih, wordOps_cons]
+
+/-- **the statevector route of the model driver is ⟨ψ|P|ψ⟩**: for every Pauli word inside the register and every
+    state, the number the driver returns (apply the word as a circuit to the array, take the array overlap) is the
+    specified inner product `inner n ψ (P ψ)` - the quantity `freq_route_eq_overlap` proves the frequency route equal to -/
+theorem expectWord_is_specified (n : Nat) (w : PWord) (hlt : ∀ qp ∈ w, qp.1 < n) (ψ : State Cyc) :
+    expectWord n (tabulate n ψ) w = inner n ψ (wordOps (pauliMat cycConsts) w ψ) := by
+  simp only [expectWord]
+  have hreg : ∀ o ∈ w.map (fun (qp : Nat × Pauli) => pauliOp qp.1 qp.2), ∀ q ∈ o.qubits, q < n := by
+    intro o ho q hq
+    obtain ⟨qp, hqp, rfl⟩ := List.mem_map.mp ho
+    have := hlt qp hqp
+    obtain ⟨q', p⟩ := qp
+    cases p <;> simp [pauliOp, Op.qubits] at hq <;> (subst hq; exact this)
+  have e : (w.map fun (x : Nat × Pauli) => match x with | (q, p) => pauliOp q p) = w.map (fun (qp : Nat × Pauli) => pauliOp qp.1 qp.2) := by
+    apply List.map_congr_left; intro x _; rfl
+  rw [e, simOps_tabulate n _ hreg ψ, semOps_word, inner_tabulate]
+
+theorem app1_one (q : Nat) (ψ : State Cyc) : app1 (M2.one : M2 Cyc) q ψ = ψ := by
+  funext x
+  simp only [app1, M2.one]
+  cases hx : x q
+  · have e0 : x.set q false = x := by rw [← hx]; exact Bits.set_self x q
+    simp [e0]
+  · have e1 : x.set q true = x := by rw [← hx]; exact Bits.set_self x q
+    simp [e1]
+
+theorem semOps_measBasis (w : PWord) (ψ : State Cyc) :
+    semOps cycConsts (measBasisOps w) ψ = wordOps (docRot cycConsts) w ψ := by
+  induction w generalizing ψ with
+  | nil => rfl
+  | cons qp rest ih =>
+    obtain ⟨q, p⟩ := qp
+    rw [wordOps_cons]
+    cases p
+    · -- X
+      have e : measBasisOps ((q, Pauli.X) :: rest) = Op.one .RY (Ang.piQuarter (-2)) q [] :: measBasisOps rest := by
+        simp [measBasisOps, Tables.measBasis, Gate.toOp, Gate.shapeOf, Gate.shapeToOp, Gate.baseOp]
+      rw [e]
+      show semOps cycConsts (measBasisOps rest) ((Op.one .RY (Ang.piQuarter (-2)) q []).sem cycConsts ψ) = _
+      rw [ih]; simp [Op.sem, ctl_nil, docRot]
+    · -- Y
+      have e : measBasisOps ((q, Pauli.Y) :: rest) = Op.one .RX (Ang.piQuarter 2) q [] :: measBasisOps rest := by
+        simp [measBasisOps, Tables.measBasis, Gate.toOp, Gate.shapeOf, Gate.shapeToOp, Gate.baseOp]
+      rw [e]
+      show semOps cycConsts (measBasisOps rest) ((Op.one .RX (Ang.piQuarter 2) q []).sem cycConsts ψ) = _
+      rw [ih]; simp [Op.sem, ctl_nil, docRot]
+    · -- Z: no rotation
+      have e : measBasisOps ((q, Pauli.Z) :: rest) = measBasisOps rest := by
+        simp [measBasisOps, Tables.measBasis]
+      rw [e, ih]; simp [docRot, app1_one]
+
+
+theorem sum_map_range (m : Nat) (f : Nat → Cyc) : ((List.range m).map f).sum = ∑ i ∈ Finset.range m, f i := by
+  induction m with
+  | zero => simp
+  | succ m ih => rw [List.range_succ, List.map_append, List.sum_append, ih, Finset.sum_range_succ]; simp
+
+theorem parity_fold_sign (w : PWord) (i : Nat) (p : Bool) (s : Cyc) (h : s = signOf p) :
+    signOf (w.foldl (fun p (qp : Nat × Pauli) => xor p (i.testBit qp.1)) p) =
+      w.foldl (fun s (qp : Nat × Pauli) => if bitsOf i qp.1 then -s else s) s := by
+  induction w generalizing p s with
+  | nil => simp [h]
+  | cons qp rest ih =>
+    simp only [List.foldl_cons]
+    apply ih
+    simp only [bitsOf]
+    subst h
+    by_cases hb : i.testBit qp.1 = true
+    · cases p <;> simp [hb, signOf]
+    · have hb' : i.testBit qp.1 = false := by simpa using hb
+      cases p <;> simp [hb', signOf]
+
+/-- the parity rule of the driver on a tabulated state is the specified signed sum of probabilities -/
+theorem expectFromProbs_tabulate (n : Nat) (w : PWord) (φ : State Cyc) :
+    expectFromProbs n (tabulate n φ) w = ∑ i ∈ Finset.range (2 ^ n), paritySign (R := Cyc) w (bitsOf i) * wt (φ (bitsOf i)) := by
+  rw [expectFromProbs_is_parity_sum]
+  simp only [sampleList, List.map_map]
+  have hsize : (tabulate n φ).size = 2 ^ n := by simp [tabulate]
+  rw [hsize, sum_map_range]
+  apply Finset.sum_congr rfl
+  intro i hi
+  have hlt : i < 2 ^ n := Finset.mem_range.mp hi
+  simp only [Function.comp]
+  have hget : (tabulate n φ).getD i 0 = φ (bitsOf i) := by
+    simp [tabulate, Array.getD_eq_getD_getElem?, Array.getElem?_ofFn, hlt]
+  rw [hget]
+  have hs := parity_fold_sign w i false 1 (by simp [signOf])
+  have e : (List.foldl (fun p (x : Nat × Pauli) => match x with | (q, _) => xor p (i.testBit q)) false w) =
+      (w.foldl (fun p (qp : Nat × Pauli) => xor p (i.testBit qp.1)) false) := rfl
+  rw [e, hs]
+  simp only [paritySign, wt, Cyc.normSq]
+  have : star (φ (bitsOf i)) = Cyc.conj (φ (bitsOf i)) := rfl
+  rw [this]; ring
+
+/-- **the frequency route of the model driver is ⟨ψ|P|ψ⟩ as well**: rotate with the gates of the regenerated
+    measurement-basis table, apply the parity rule to the exact outcome frequencies - for every Pauli word with
+    distinct qubits inside the register and every state -/
+theorem freqRoute_is_specified (n : Nat) (w : PWord) (hnd : (w.map (·.1)).Nodup) (hlt : ∀ qp ∈ w, qp.1 < n) (ψ : State Cyc) :
+    expectWordFreqRoute n (tabulate n ψ) w = inner n ψ (wordOps (pauliMat cycConsts) w ψ) := by
+  simp only [expectWordFreqRoute]
+  have hreg : ∀ o ∈ measBasisOps w, ∀ q ∈ o.qubits, q < n := by
+    intro o ho q hq
+    simp only [measBasisOps, List.mem_filterMap] at ho
+    obtain ⟨qp, hqp, hop⟩ := ho
+    have := hlt qp hqp
+    obtain ⟨q', p⟩ := qp
+    cases p <;> simp [Tables.measBasis, Gate.toOp, Gate.shapeOf, Gate.shapeToOp, Gate.baseOp] at hop <;>
+      (subst hop; simp [Op.qubits] at hq; subst hq; exact this)
+  rw [simOps_tabulate n _ hreg ψ, semOps_measBasis, expectFromProbs_tabulate]
+  exact freq_route_eq_overlap_exec n w hnd hlt ψ
+
+/-- **the two routes agree on the driver**, for every state, word and register size -/
+theorem routes_agree_on_driver (n : Nat) (w : PWord) (hnd : (w.map (·.1)).Nodup) (hlt : ∀ qp ∈ w, qp.1 < n) (ψ : State Cyc) :
+    expectWordFreqRoute n (tabulate n ψ) w = expectWord n (tabulate n ψ) w := by
+  rw [freqRoute_is_specified n w hnd hlt ψ, expectWord_is_specified n w hlt ψ]
 
 end Tangelo.C02
